@@ -183,7 +183,10 @@ def rewrite(d, mode):
             continue
         p = os.path.join(d, 'disk_objectstore', f)
         tree = ast.parse(open(p, encoding='utf8').read())
-        if mode == 'rename':
+        if mode == 'opaque':
+            tree = OpaqueRenamer().visit(tree)
+            ast.fix_missing_locations(tree)
+        elif mode == 'rename':
             tree = ShadowSafe().visit(tree)
             ast.fix_missing_locations(tree)
         elif mode == 'hoist':
@@ -240,6 +243,20 @@ class ShadowSafe(Renamer):
                 return node
             if node.id in loc:
                 node.id = node.id + '_r'
+                return node
+        return node
+
+
+class OpaqueRenamer(ShadowSafe):
+    """Like the local renaming, but to opaque names (x -> v_<digest>): nothing of the original spelling survives."""
+
+    def visit_Name(self, node):
+        import hashlib
+        for loc, par in zip(reversed(self.stack), reversed(self.params)):
+            if node.id in par:
+                return node
+            if node.id in loc:
+                node.id = 'v_' + hashlib.sha1(node.id.encode()).hexdigest()[:6]
                 return node
         return node
 
